@@ -374,7 +374,9 @@ def header_rules(ctx):
     gs = [n for n in walk_no_nested(gh.node) if isinstance(n, ast.Assign) and norm(n.targets[0]) == "gs_str"]
     ap = [norm(n) for n in walk_no_nested(gh.node) if isinstance(n, ast.Expr) and "gridsize_str.append" in norm(n)]
     ok = len(gs) == 1 and norm(gs[0].value) == "[f'{gs - 1}' for gs in self.grid_sizes[level]]" and \
-        ap == ["gridsize_str.append('((0,0,0) (' + ','.join(gs_str) + ') (0,0,0))')"]
+        ap in ([norm(ast.parse(t).body[0]) for t in [a]] for a in
+               ("gridsize_str.append('((0,0,0) (' + ','.join(gs_str) + ') (0,0,0))')",
+                "gridsize_str.append(f\"((0,0,0) ({','.join(gs_str)}) (0,0,0))\")"))
     ctx.check(ok, f"{P}.H-WRITE", gh.site, "domain tuple per level is ((0,0,0) (n-1,..) (0,0,0))",
               f"domain tuple built by {[norm(g.value) for g in gs]} / {ap}", key="domain-tuple")
     ctx.check(len(prog.func(CR, "CheckpointReader.__init__", P).params) >= 2, f"{P}.H-WRITE", gh.site, "reader present", "")
@@ -390,8 +392,10 @@ def header_rules(ctx):
         return line.show() == "W[FabOnDisk: {bfile} {int(offset)}]" or line.show() == "W[FabOnDisk: {bfile} {offset}]"
 
     def row(var):
-        return lambda line: line.show() == "W[<join ',' {m:.16e} over %s>,]" % var or \
-            line.show() == "W[<join ',' {m:.17e} over %s>,]" % var
+        # the comprehension variable of the joined element may have any name
+        import re as _re
+        return lambda line: _re.fullmatch(r"W\[<join ',' \{(\w+):\.1[67]e\} over %s>,\]" % _re.escape(var),
+                                          line.show()) is not None
     oracle = [Spec("version", literal("1"), "1"), Spec("how", literal("1"), "1"),
               Spec("nfields", one_ph(nf), "field count"), Spec("nghost", literal("0"), "0"),
               Spec("nboxes_open", lambda l: l.show() == "W[({%s} 0]" % nb, "`(nboxes 0`"),
